@@ -1254,25 +1254,37 @@ func (o *baseObject) iterateStringKeys() iterNextFunc {
 	}).next
 }
 
+// objectSymbolIter walks a snapshot of the symbol keys taken when the iteration was created
+// ([[OwnPropertyKeys]]) and looks every key up again when it is reached ([[GetOwnProperty]]), so that
+// properties created during the iteration are not visited and a deleted and re-created property is
+// visited at its original position.
 type objectSymbolIter struct {
-	iter *orderedMapIter
+	o    *baseObject
+	keys []Value
+	idx  int
 }
 
 func (i *objectSymbolIter) next() (propIterItem, iterNextFunc) {
-	entry := i.iter.next()
-	if entry != nil {
-		return propIterItem{
-			name:  entry.key,
-			value: entry.value,
-		}, i.next
+	for i.idx < len(i.keys) {
+		key := i.keys[i.idx]
+		i.idx++
+		if i.o.symValues != nil {
+			if value := i.o.symValues.get(key); value != nil {
+				return propIterItem{
+					name:  key,
+					value: value,
+				}, i.next
+			}
+		}
 	}
 	return propIterItem{}, nil
 }
 
 func (o *baseObject) iterateSymbols() iterNextFunc {
-	if o.symValues != nil {
+	if o.symValues != nil && o.symValues.size > 0 {
 		return (&objectSymbolIter{
-			iter: o.symValues.newIter(),
+			o:    o,
+			keys: o.symbols(true, nil),
 		}).next
 	}
 	return func() (propIterItem, iterNextFunc) {
@@ -1283,6 +1295,7 @@ func (o *baseObject) iterateSymbols() iterNextFunc {
 type objectAllPropIter struct {
 	o      *Object
 	curStr iterNextFunc
+	syms   iterNextFunc
 }
 
 func (i *objectAllPropIter) next() (propIterItem, iterNextFunc) {
@@ -1291,13 +1304,14 @@ func (i *objectAllPropIter) next() (propIterItem, iterNextFunc) {
 		i.curStr = next
 		return item, i.next
 	}
-	return i.o.self.iterateSymbols()()
+	return i.syms()
 }
 
 func (o *baseObject) iterateKeys() iterNextFunc {
 	return (&objectAllPropIter{
 		o:      o.val,
 		curStr: o.val.self.iterateStringKeys(),
+		syms:   o.val.self.iterateSymbols(),
 	}).next
 }
 
